@@ -19,7 +19,7 @@ def _res(fn, *a):
 
 class C26(core.Check):
     pid = "C26"
-    exe = "drv_b64"
+    pkg = "B64"
     props_mod = "HioModel.Props.C26"
     design_ref = "DESIGN.md §5 C26"
     technique = "Lean 4 theorems over a model of the Base64 helpers + regenerated alphabet tables + differential run against hio.help.helping"
